@@ -151,6 +151,7 @@ func TestStoreConc(t *testing.T) {
 		K := h.count()
 		for k := 1; k <= K; k++ {
 			run++
+			mark := vt.EnvMark()
 			setup(in.Pre)
 			h.arm("A", k)
 			doneA := make(chan string, 1)
@@ -182,6 +183,9 @@ func TestStoreConc(t *testing.T) {
 				case <-time.After(10 * time.Second):
 					classA = "hang"
 				}
+			}
+			if vt.EnvFailedSince(mark) {
+				continue
 			}
 			out.Emit(map[string]any{"ev": "SConc", "run": run, "pre": in.Pre, "a": in.A, "b": in.B, "k": k, "reached": reached,
 				"classA": classA, "classB": classB, "mid": mid, "mid2": mid2, "fin": observe()})
